@@ -634,3 +634,19 @@ pub fn eq_chain_b<F: Fn(u32) -> Option<u32>, P: Fn(&u32) -> bool>(x: Option<u32>
         _ => 0,
     }
 }
+
+// ---- a record taken apart and put together again  ==  the record
+pub fn eq_eta_a<F: FnOnce(Pair)>(p: Pair, f: F) {
+    f(p)
+}
+pub fn eq_eta_b<F: FnOnce(Pair)>(p: Pair, f: F) {
+    let Pair { reads, writes } = p;
+    f(Pair { reads, writes })
+}
+pub fn ne_eta_a<F: FnOnce(Pair)>(p: Pair, f: F) {
+    f(p)
+}
+pub fn ne_eta_b<F: FnOnce(Pair)>(p: Pair, f: F) {
+    let Pair { reads, writes } = p;
+    f(Pair { reads: writes, writes: reads })
+}
